@@ -90,18 +90,11 @@ deriving DecidableEq, Repr, Inhabited
 /-- state after INIT_V2_SCANNER: line 1, column 0, ttype END -/
 def Scan.init (input : Str) : Scan := ⟨input, 1, 0, .end_⟩
 
-def lineLength : Nat := 2048          -- CIF_LINE_LENGTH   (link: `consts_link`)
+def lineLength : Nat := 2048          -- CIF_LINE_LENGTH   (link: `consts_link` in Lemmas/CharsLink.lean)
 def cif1MaxChar : Nat := 0x7E         -- CIF1_MAX_CHAR
 def eofChar : Nat := 0xFFFF           -- EOF_CHAR
 def colon : CU := 0x3A
 def replChar (dia : Dialect) : CU := match dia with | .cif2 => 0xFFFD | .cif1 => 0x2A   -- REPL_CHAR / REPL1_CHAR
-
-theorem consts_link : lineLength = Gen.CharClass.CIF_LINE_LENGTH ∧ cif1MaxChar = Gen.CharClass.CIF1_MAX_CHAR
-    ∧ eofChar = Gen.CharClass.EOF_CHAR ∧ colon = Gen.CharClass.UCHAR_COLON
-    ∧ replChar .cif2 = Gen.CharClass.REPL_CHAR ∧ replChar .cif1 = Gen.CharClass.REPL1_CHAR
-    ∧ Gen.CharClass.UCHAR_NL = 10 ∧ Gen.CharClass.UCHAR_CR = 13 ∧ Gen.CharClass.UCHAR_BOM = 0xFEFF
-    ∧ Gen.CharClass.initLine = 1 ∧ Gen.CharClass.initColumn = 0 ∧ Gen.CharClass.initTtype = Gen.CharClass.ttEnd := by
-  decide
 
 /-! ### SCAN_UCHAR / HANDLE_UNPAIRED_LEAD -/
 
